@@ -240,7 +240,7 @@ impl Engine for C11 {
     fn runs(&self, tier: Tier) -> u64 {
         self.cases().len() as u64
             + match tier {
-                Tier::Quick => 20_000,
+                Tier::Quick => 300_000,
                 Tier::Thorough => 2_000_000,
             }
     }
